@@ -366,9 +366,11 @@ func TestC15HistoryDocument(t *testing.T) { testC15History(t, sim.Document) }
 func TestC15RestPatch(t *testing.T) {
 	col := stats.New("C15", t.Name(),
 		"a document on the real server: a client creates it and pushes 1-6 operations (a snapshot is stored or - drawn - its insert is made to fail), then 1-4 REST patches interleaved with further client pushes; "+
-			"oracle on the stored log after every patch: every operation a patch appended has a clock value greater than that of every operation stored before it (its replica had applied them all), and no two operations of the log share (era, clock, client id); "+
+			"oracle on the stored log after every patch: every operation a patch appended has a clock value greater than that of every operation stored before it (its replica had applied them all), no two operations of the log share (era, clock, client id), and the operations of each client id in the log are numbered 1,2,3,... without gap or repeat; "+
 			"non-trivial = >=2 patches with a stored snapshot in between; distinct = the drawn scenario")
-	col.Assume("identifier reuse of the kind (client id, sequence number) by REST patches is known finding S17b (C19) and not asserted here; timestamps (clock, client id) are")
+	if isOpen("S17b") {
+		col.Assume("identifier reuse of the kind (client id, sequence number) by REST patches is known finding S17b (C19) and not asserted here; timestamps (clock, client id) are")
+	}
 	checkProp(t, "C15", col, func(c *caseCtx) {
 		rt := c.rt
 		idseed := rapid.Uint64Range(1, 1<<40).Draw(rt, "idseed")
@@ -404,6 +406,7 @@ func TestC15RestPatch(t *testing.T) {
 		check := func(when string, from int) int {
 			log, _ := w.storedLog(k.duid)
 			seen := map[string]int{}
+			lastSeq := map[string]uint64{}
 			var maxClock uint64
 			for i, so := range log {
 				id := so.op.ID
@@ -412,6 +415,14 @@ func TestC15RestPatch(t *testing.T) {
 					c.failf("%s: the operations at log positions %d and %d share the timestamp %s", when, j+1, i+1, key)
 				}
 				seen[key] = i
+			if !isOpen("S17b") {
+				// "each client numbers its operations on a datatype 1,2,3,... without gaps": in the log the
+				// operations of one client id carry consecutive sequence numbers from 1
+				if want := lastSeq[id.CUID] + 1; id.Seq != want {
+					c.failf("%s: the operation at log position %d is number %d of client id %s, but the previous operation of that client id in the log was number %d", when, i+1, id.Seq, id.CUID, want-1)
+				}
+				lastSeq[id.CUID] = id.Seq
+			}
 				if i >= from && !knownCUIDs[id.CUID] && id.Lamport <= maxClock {
 					c.failf("%s: the REST patch operation at log position %d has clock %d, but the replica that issued it had already applied an operation with clock %d (log positions 1..%d)", when, i+1, id.Lamport, maxClock, i)
 				}
